@@ -33,10 +33,10 @@ impl AnyTree {
     { unimplemented!() }
 }
 pub struct MetaKeyspace { pub inner: AnyTree }
-//@extract src/meta_keyspace.rs :: MetaKeyspace :: get_highest_seqno world props=C11
+//@extract src/meta_keyspace.rs :: MetaKeyspace :: get_highest_seqno world props=C11+C16
 //@contract
     requires self.inner.id@ == 0, old(w).trees.dom().contains(0),
-    ensures *final(w) == *old(w), r == highest(old(w).trees[0]), // [C11:meta-high-water-mark-covers-tables-and-memtables]
+    ensures *final(w) == *old(w), r == highest(old(w).trees[0]), // [C11:meta-high-water-mark-covers-tables-and-memtables] [C16:meta-high-water-mark-covers-tables-and-memtables] (option rows written after a reopen must not sort below the rows already stored)
         r is Some ==> r->Some_0 < u64::MAX,
 //@end
 
